@@ -7,11 +7,85 @@ import KinModel.Router
 import KinModel.RouterSpec
 import KinModel.Lemmas.C09Legacy
 import KinModel.Lemmas.C09LegacyComplete
+import KinModel.Lemmas.C09LegacyLiteral
+import KinModel.Lemmas.C09Server
+import KinModel.Lemmas.C09Facts
+import KinModel.Lemmas.C09Refine
+import KinModel.Lemmas.C09LegacyRefine
+import KinModel.Lemmas.C09LegacyOrder
 import KinModel.Lemmas.C09Gorilla
 import KinModel.Lemmas.C09Spec
 import KinModel.Lemmas.C09Witness
 namespace KinModel.Props.C09
 open KinModel.Router
+
+/-! ## the source facts the models copy by hand (table `RouterFacts`, regenerated from the source on every run) -/
+
+/-- the translator could read every code shape it looks for -/
+theorem router_facts_recognised : ∀ r ∈ KinModel.Gen.routerFacts, factRecognised r = true := by decide +kernel
+
+/-- pathpattern: the numbers of the suffix kinds are those of `sufKind` (constant < regexp < variable < everything),
+    `SuffixList.Less` is "kind first, then the larger pattern first" (`sufLess`), CreateNode and Match strip trailing slashes
+    with the same loop (`stripSlashes` on both sides) -/
+theorem router_facts_pathpattern :
+    routerFact "suffixKind.SuffixKindConstant" = some "0" ∧ sufKind (.const []) = 0 ∧
+    routerFact "suffixKind.SuffixKindRegExp" = some "1" ∧
+    routerFact "suffixKind.SuffixKindVariable" = some "2" ∧ sufKind .var = 2 ∧
+    routerFact "suffixKind.SuffixKindEverything" = some "3" ∧ sufKind .all = 3 ∧
+    routerFact "less.body" = some "{ a, b := list[i], list[j] ak, bk := a.Kind, b.Kind if ak < bk { return true } else if bk < ak { return false } return a.Pattern > b.Pattern }" ∧
+    routerFact "stripLoop.CreateNode" = some "for strings.HasSuffix(path, \"/\") { path = path[:len(path)-1] }" ∧
+    routerFact "stripLoop.Match" = routerFact "stripLoop.CreateNode" := by decide +kernel
+
+/-- Paths.InMatchingOrder counts '}' per template, walks the counts upwards and sorts each group in descending string order
+    (`pathBefore`) -/
+theorem router_facts_matching_order :
+    routerFact "inMatchingOrder.count" = some "strings.Count(path, \"}\")" ∧
+    routerFact "inMatchingOrder.loop" = some "c := 0; c <= max; c++" ∧
+    routerFact "inMatchingOrder.sort" = some "sort.Sort(sort.Reverse(sort.StringSlice(ps)))" := by decide +kernel
+
+/-- gorillamux: encoded-path mux router; one fresh Route per (path, server) carrying that server; FindRoute returns a copy;
+    newSrv drops one trailing slash of any non-empty base path; a path item's servers are assigned to the variable of the
+    enclosing function (the leak that `gLoop true` models, F-C09-10) -/
+theorem router_facts_gorillamux :
+    routerFact "gorilla.newRouter.mux" = some "muxRouter := mux.NewRouter().UseEncodedPath()" ∧
+    routerFact "gorilla.newRouter.routeLiterals" = some "1" ∧
+    routerFact "gorilla.newRouter.routePerServer" = some "true" ∧
+    routerFact "gorilla.newRouter.route" = some "Spec: doc, Server: s.server, Path: path, PathItem: pathItem, Method: \"\", Operation: nil" ∧
+    routerFact "gorilla.newRouter.pathServers" = some "servers, err = makeServers(pathItem.Servers)" ∧
+    routerFact "gorilla.findRoute.copy" = some "route := *r.routes[i]" ∧
+    routerFact "gorilla.findRoute.returns" = some "return &route, vars, nil | return nil, nil, routers.ErrMethodNotAllowed | return nil, nil, routers.ErrPathNotFound" ∧
+    routerFact "gorilla.newSrv.trim" = some "len(path) > 0 && path[len(path)-1] == '/'" := by decide +kernel
+
+/-- legacy: NewRouter ranges over two Go maps (hence the arbitrary key order of the legacy theorems), its routes have no
+    Server and FindRoute never sets one (`setSrv = false`, F-C09-8); only the document's servers are read (F-C09-9); the
+    decoded `url.Path` is matched without servers, the escaped `url.String()` with servers (`legacyFindW`) -/
+theorem router_facts_legacy :
+    routerFact "legacy.newRouter.ranges" = some "doc.Paths.Map() | pathItem.Operations()" ∧
+    routerFact "legacy.newRouter.routeFields" = some "Spec,Path,PathItem,Method,Operation" ∧
+    routerFact "legacy.findRoute.setsRouteServer" = some "false" ∧
+    routerFact "legacy.findRoute.serversFrom" = some "doc.Servers" ∧
+    routerFact "legacy.findRoute.remainingPath" = some "remainingPath = url.Path | server, paramValues, remainingPath = servers.MatchURL(url)" ∧
+    routerFact "servers.matchURL.input" = some "rawURL := parsedURL.String()" ∧
+    routerFact "errors.ErrPathNotFound" = some "&RouteError{\"no matching operation was found\"}" ∧
+    routerFact "errors.ErrMethodNotAllowed" = some "&RouteError{\"method not allowed\"}" := by decide +kernel
+
+/-- percent-encoding: when nothing in the path is encoded, the wire-level routers are the routers of the theorems below on
+    the one path string; otherwise gorillamux is that router on the escaped path and the legacy router on the decoded path
+    (no servers) or the escaped URL (servers) -/
+theorem wire_readings (d : Doc) (w : Wire) :
+    gorillaFindW d w = gorillaFind d w.raw ∧
+    legacyFindW d w = legacyFind d (if d.servers = [] then w.req else w.raw) ∧
+    (w.epath = w.req.path → w.raw = w.req ∧ gorillaFindW d w = gorillaFind d w.req ∧ legacyFindW d w = legacyFind d w.req ∧
+      ∀ o, specAcceptsW d w o = specAccepts d w.req o) := by
+  refine ⟨rfl, rfl, ?_⟩
+  intro h
+  have e : w.raw = w.req := by
+    unfold Wire.raw
+    rw [h]
+  refine ⟨e, by unfold gorillaFindW; rw [e], by unfold legacyFindW; rw [e]; simp, ?_⟩
+  intro o
+  unfold specAcceptsW
+  rw [e, Bool.or_self]
 
 /-! ## legacy router -/
 
@@ -23,50 +97,57 @@ theorem docKeys_declared (d : Doc) (k : Key) :
   · rintro ⟨pd, hpd, m, hm, rfl⟩; exact ⟨pd, hpd, rfl, hm⟩
   · rintro ⟨pd, hpd, ht, hm⟩; exact ⟨pd, hpd, k.method, hm, by cases k; simp_all⟩
 
+/- NewRouter adds the keys while ranging over Go maps, so the legacy theorems are stated for the trie built from an
+   arbitrary list `ks` of keys (instantiate `ks` with any rearrangement of `docKeys d`); `legacyFind d r` is the
+   instance `ks = docKeys d`, `setSrv = false`. -/
+
 /- Full statement (false for the code, finding #14):
-     legacyMatch d m rem = some (k, vals) → k ∈ docKeys d ∧ spell k.sufs vals = some (m ++ ' ' :: rem)
+     legacyMatchOf ks m rem = some (k, vals) → k ∈ ks ∧ spell k.sufs vals = some (m ++ ' ' :: rem)
    What holds: under non-empty bindings the returned values substituted into the returned key "METHOD template"
    spell exactly the looked-up string "METHOD remainingPath" with its trailing slashes stripped. -/
-theorem legacy_match_sound_partial (d : Doc) (m rem : Str) (k : Key) (vals : List Str)
-    (h : legacyMatch d m rem = some (k, vals)) (hne : ∀ v ∈ vals, v ≠ []) :
-    k ∈ docKeys d ∧ spell k.sufs vals = some (stripSlashes (m ++ ' ' :: rem)) := by
-  obtain ⟨ext, path, e0, e1, e3⟩ := match_sound.1 (legacyRoot d) _ [] (k, vals) h
+theorem legacy_match_sound_partial (ks : List Key) (m rem : Str) (k : Key) (vals : List Str)
+    (h : legacyMatchOf ks m rem = some (k, vals)) (hne : ∀ v ∈ vals, v ≠ []) :
+    k ∈ ks ∧ spell k.sufs vals = some (stripSlashes (m ++ ' ' :: rem)) := by
+  obtain ⟨ext, path, e0, e1, e3, _⟩ := match_sound.1 (legacyRootOf ks) _ [] (k, vals) h
   simp only [List.nil_append] at e1
   subst e1
-  rcases build_paths (docKeys d) emptyNode (path, k) e0 with h0 | ⟨h1, h2⟩
+  rcases build_paths ks emptyNode (path, k) e0 with h0 | ⟨h1, h2⟩
   · simp [paths_empty] at h0
   · simp only at h1 h2
     subst h2
     exact ⟨h1, e3 hne (key_sufs_wf k)⟩
 
-/-- whatever the trie returns is a declared (method, template) pair (no exclusion needed) -/
-theorem legacy_match_declared (d : Doc) (m rem : Str) (k : Key) (vals : List Str)
-    (h : legacyMatch d m rem = some (k, vals)) : k ∈ docKeys d := by
-  obtain ⟨ext, path, e0, _, _⟩ := match_sound.1 (legacyRoot d) _ [] (k, vals) h
-  rcases build_paths (docKeys d) emptyNode (path, k) e0 with h0 | ⟨h1, _⟩
+/-- whatever the trie returns is one of the keys it was built from (no exclusion needed, any insertion order) -/
+theorem legacy_match_declared (ks : List Key) (m rem : Str) (k : Key) (vals : List Str)
+    (h : legacyMatchOf ks m rem = some (k, vals)) : k ∈ ks := by
+  obtain ⟨ext, path, e0, _, _, _⟩ := match_sound.1 (legacyRootOf ks) _ [] (k, vals) h
+  rcases build_paths ks emptyNode (path, k) e0 with h0 | ⟨h1, _⟩
   · simp [paths_empty] at h0
   · exact h1
 
-/-- a route returned by the legacy router is a declared (method, template) pair, found under a matching server,
-    and (non-empty bindings) its key spells the request -/
-theorem legacy_route_sound_partial (d : Doc) (r : Req) (t m : Str) (ps : List (Str × Str))
-    (h : legacyFind d r = .route t m ps) :
-    ∃ sp rem k vals, legacyServer d r = some (sp, rem) ∧ legacyMatch d r.method rem = some (k, vals) ∧
+/-- a route returned by the legacy router is a declared (method, template) pair, found in what remains of the URL after
+    the first matching document-level server, and (non-empty bindings) its key spells that remainder; the `Route.Server`
+    it carries is nil as the code is (`setSrv = false`), the matched server after the repair -/
+theorem legacy_route_sound_partial (setSrv : Bool) (d : Doc) (ks : List Key) (hks : ∀ k ∈ ks, k ∈ docKeys d)
+    (r : Req) (t m : Str) (ps : List (Str × Str)) (sv : SrvRef)
+    (h : legacyFindOrd setSrv d ks r = .route t m ps sv) :
+    ∃ si sp rem k vals, legacyServer d r = some (si, sp, rem) ∧ legacyMatchOf ks r.method rem = some (k, vals) ∧
       k.template = t ∧ k.method = m ∧
+      sv = (match si with | some i => if setSrv then SrvRef.doc i else SrvRef.none | none => SrvRef.none) ∧
       (∃ pd ∈ d.paths, pd.template = t ∧ m ∈ pd.methods) ∧
       ((∀ v ∈ vals, v ≠ []) → spell k.sufs vals = some (stripSlashes (r.method ++ ' ' :: rem))) := by
-  unfold legacyFind at h
+  unfold legacyFindOrd at h
   split at h
   · simp at h
   · split at h
     · simp at h
-    · rename_i sp rem hs
+    · rename_i si sp rem hs
       split at h
       · rename_i k vals hm
         simp only [Outcome.route.injEq] at h
-        obtain ⟨h1, h2, _⟩ := h
-        refine ⟨sp, rem, k, vals, hs, hm, h1, h2, ?_, fun hne => (legacy_match_sound_partial d _ _ _ _ hm hne).2⟩
-        have hk := legacy_match_declared d _ _ _ _ hm
+        obtain ⟨h1, h2, _, h4⟩ := h
+        refine ⟨si, sp, rem, k, vals, hs, hm, h1, h2, h4.symm, ?_, fun hne => (legacy_match_sound_partial ks _ _ _ _ hm hne).2⟩
+        have hk := hks k (legacy_match_declared ks _ _ _ _ hm)
         obtain ⟨pd, hpd, e1, e2⟩ := (docKeys_declared d k).1 hk
         exact ⟨pd, hpd, by rw [e1, h1], by rw [← h2]; exact e2⟩
       · split at h
@@ -74,45 +155,120 @@ theorem legacy_route_sound_partial (d : Doc) (r : Req) (t m : Str) (ps : List (S
         · split at h <;> simp at h
 
 /- Full statement (false for the code: documented limitation "variable followed by text in the same segment"):
-     k ∈ docKeys d, "METHOD path" is k's key with its variables replaced by non-empty slash-free values → matched.
-   What holds: every string that a declared key *reads* (`Reads`: constants literally, a variable takes a slash-free
-   value and is followed by '/' or the end of the string) is matched by the trie — to some declared key
+     k ∈ ks, "METHOD path" is k's key with its variables replaced by non-empty slash-free values → matched.
+   What holds: every string that a stored key *reads* (`Reads`: constants literally, a variable takes a slash-free
+   value and is followed by '/' or the end of the string) is matched by the trie — to some stored key
    (`legacy_match_declared`), not necessarily this one when templates overlap. -/
-theorem legacy_match_complete_partial (d : Doc) (m rem : Str) (k : Key) (vals : List Str)
-    (hk : k ∈ docKeys d) (hr : Reads k.sufs vals (stripSlashes (m ++ ' ' :: rem))) :
-    (legacyMatch d m rem).isSome := by
-  obtain ⟨k2, h2⟩ := (build_has_path (docKeys d) emptyNode).2 k hk
-  exact match_complete k.sufs (legacyRoot d) k2 vals _ [] h2 hr
+theorem legacy_match_complete_partial (ks : List Key) (m rem : Str) (k : Key) (vals : List Str)
+    (hk : k ∈ ks) (hr : Reads k.sufs vals (stripSlashes (m ++ ' ' :: rem))) :
+    (legacyMatchOf ks m rem).isSome := by
+  obtain ⟨k2, h2⟩ := (build_has_path ks emptyNode).2 k hk
+  exact match_complete k.sufs (legacyRootOf ks) k2 vals _ [] h2 hr
 
-/-- route_complete (legacy, partial): under a matching server, a request that some declared key reads is routed -/
-theorem legacy_route_complete_partial (d : Doc) (r : Req) (sp : List (Str × Str)) (rem : Str) (k : Key) (vals : List Str)
-    (hb : legacyBuildOK d = true) (hs : legacyServer d r = some (sp, rem))
-    (hk : k ∈ docKeys d) (hr : Reads k.sufs vals (stripSlashes (r.method ++ ' ' :: rem))) :
-    ∃ t m ps, legacyFind d r = .route t m ps := by
-  have hm := legacy_match_complete_partial d r.method rem k vals hk hr
-  unfold legacyFind
+/-- route_complete (legacy, partial): under a matching server, a request that some stored key reads is routed -/
+theorem legacy_route_complete_partial (setSrv : Bool) (d : Doc) (ks : List Key) (r : Req) (si : Option Nat)
+    (sp : List (Str × Str)) (rem : Str) (k : Key) (vals : List Str)
+    (hb : legacyBuildOK d = true) (hs : legacyServer d r = some (si, sp, rem))
+    (hk : k ∈ ks) (hr : Reads k.sufs vals (stripSlashes (r.method ++ ' ' :: rem))) :
+    ∃ t m ps sv, legacyFindOrd setSrv d ks r = .route t m ps sv := by
+  have hm := legacy_match_complete_partial ks r.method rem k vals hk hr
+  unfold legacyFindOrd
   simp only [hb, Bool.not_true, Bool.false_eq_true, if_false, hs]
-  cases hmm : legacyMatch d r.method rem with
+  cases hmm : legacyMatchOf ks r.method rem with
   | none => simp [hmm] at hm
-  | some kv => exact ⟨_, _, _, rfl⟩
+  | some kv => exact ⟨_, _, _, _, rfl⟩
+
+/-- literal_wins (legacy trie, any insertion order): when the looked-up string "METHOD remainingPath" is, up to trailing
+    slashes, a stored key without variables, the trie returns a key stored at that key's node (the key itself unless
+    another key collides with it, F-C09-7) and binds no variable — a templated sibling (`/a/{x}` next to `/a/b`) never
+    wins, whatever the suffix lists hold, because constants are tried before variables, longer constants first -/
+theorem legacy_literal_wins (ks : List Key) (k0 : Key) (hk : k0 ∈ ks) (hlit : '{' ∉ k0.str) (m rem : Str)
+    (hreq : stripSlashes (m ++ ' ' :: rem) = stripSlashes k0.str) :
+    ∃ k', legacyMatchOf ks m rem = some (k', []) ∧ k' ∈ ks ∧ k'.sufs = k0.sufs := by
+  obtain ⟨k2, h2⟩ := (build_has_path ks emptyNode).2 k0 hk
+  obtain ⟨k', h3, h4⟩ := lit_match k0.sufs (legacyRootOf ks) k2 (stripSlashes k0.str) [] (legacyRoot_good ks) h2 (key_lit k0 hlit)
+  refine ⟨k', by unfold legacyMatchOf; rw [hreq]; exact h3, ?_⟩
+  rcases build_paths ks emptyNode (k0.sufs, k') h4 with h0 | ⟨h5, h6⟩
+  · simp [paths_empty] at h0
+  · exact ⟨h5, h6.symm⟩
+
+/-- … and FindRoute then returns that key's route (no path parameter from the template) -/
+theorem legacy_literal_route (setSrv : Bool) (d : Doc) (ks : List Key) (r : Req) (hb : legacyBuildOK d = true)
+    (si : Option Nat) (sp : List (Str × Str)) (rem : Str) (hs : legacyServer d r = some (si, sp, rem))
+    (k0 : Key) (hk : k0 ∈ ks) (hlit : '{' ∉ k0.str)
+    (hreq : stripSlashes (r.method ++ ' ' :: rem) = stripSlashes k0.str) :
+    ∃ k' sv, k' ∈ ks ∧ k'.sufs = k0.sufs ∧
+      legacyFindOrd setSrv d ks r = .route k'.template k'.method (mapSetAll (mapSetAll [] sp) (((Tok.names k'.toks).map trimStar).zip [])) sv := by
+  obtain ⟨k', h1, h2, h3⟩ := legacy_literal_wins ks k0 hk hlit r.method rem hreq
+  refine ⟨k', (match si with | some i => if setSrv then SrvRef.doc i else SrvRef.none | none => SrvRef.none), h2, h3, ?_⟩
+  unfold legacyFindOrd
+  simp only [hb, Bool.not_true, Bool.false_eq_true, if_false, hs, h1]
+  cases si <;> rfl
+
+/-- the server part of the legacy FindRoute: the matched server is the first declared document-level server whose pattern
+    matches the request URL; its URL with the extracted (slash-free) values substituted, a final "/" ignored, is a prefix of
+    the request URL and the remaining path is what follows (an empty remainder reads as "/") -/
+theorem legacy_server_sound (d : Doc) (r : Req) (i : Nat) (sp : List (Str × Str)) (rem : Str)
+    (h : legacyServer d r = some (some i, sp, rem)) :
+    ∃ s, d.servers[i]? = some s ∧
+      (∀ j s', j < i → d.servers[j]? = some s' → matchRawURL (s'.url.length + 1) s'.url (rawURL r) [] = none) ∧
+      ∃ vals p rem', PatSpell s.url vals p ∧ (∀ v ∈ vals, '/' ∉ v) ∧ rawURL r = p ++ rem' ∧ RemOf rem' rem ∧
+        sp = (paramNames (s.url.length + 1) s.url).zip vals := by
+  unfold legacyServer at h
+  split at h
+  · simp at h
+  · split at h
+    · simp at h
+    · rename_i i' s vals' rem0 hm
+      simp only [Option.some.injEq, Prod.mk.injEq] at h
+      obtain ⟨rfl, rfl, rfl⟩ := h
+      obtain ⟨k, e1, e2, e3, e4⟩ := matchServersFrom_some _ _ _ _ _ _ _ hm
+      simp only [Nat.zero_add] at e1
+      subst e1
+      obtain ⟨vals, p, rem', f1, f2, f3, f4, f5⟩ := matchRawURL_sound _ _ _ _ _ _ e3
+      simp only [List.nil_append] at f1
+      subst f1
+      exact ⟨s, e2, e4, vals', p, rem', f2, f3, f4, f5, rfl⟩
+
+/-- … and without document-level servers the whole URL path is matched, no server is involved -/
+theorem legacy_server_none (d : Doc) (r : Req) (sp : List (Str × Str)) (rem : Str) :
+    legacyServer d r = some (none, sp, rem) ↔ d.servers = [] ∧ sp = [] ∧ rem = r.path := by
+  unfold legacyServer
+  split
+  · rename_i h; simp [h, eq_comm]
+  · rename_i h
+    split <;> simp [h]
+
+/- Full statement (false for the code, finding F-C09-7): the router's answers do not depend on the order in which NewRouter
+   meets the (method, template) pairs — a Go map iteration order.
+   What holds: … when no two different keys share a suffix path (`keyCollision = false`): then every rearrangement of the
+   keys builds the same trie. -/
+theorem legacy_order_independent_partial (setSrv : Bool) (d : Doc) (ks : List Key) (hp : ks.Perm (docKeys d))
+    (hnc : keyCollision (docKeys d) = false) (r : Req) :
+    legacyRootOf ks = legacyRoot d ∧ legacyFindOrd setSrv d ks r = legacyFindOrd setSrv d (docKeys d) r := by
+  have hroot : legacyRootOf ks = legacyRootOf (docKeys d) :=
+    (build_perm hp.symm (noCollision_of_keyCollision hnc) emptyNode).symm
+  refine ⟨hroot, ?_⟩
+  unfold legacyFindOrd legacyMatchOf
+  rw [hroot]
 
 /-- no_match_is_error (legacy): no matching server, or no trie match and no path key spelled by the remaining path,
     yields path-not-found; and the router never answers with the nil-dereference outcome -/
-theorem legacy_no_match_is_error (d : Doc) (r : Req) (hb : legacyBuildOK d = true) :
-    (legacyServer d r = none → legacyFind d r = .notFound) ∧
-    (∀ sp rem, legacyServer d r = some (sp, rem) → legacyMatch d r.method rem = none →
-        legacyFind d r = .notFound ∨ legacyFind d r = .methodNotAllowed) ∧
-    legacyFind d r ≠ .panic := by
+theorem legacy_no_match_is_error (setSrv : Bool) (d : Doc) (ks : List Key) (r : Req) (hb : legacyBuildOK d = true) :
+    (legacyServer d r = none → legacyFindOrd setSrv d ks r = .notFound) ∧
+    (∀ si sp rem, legacyServer d r = some (si, sp, rem) → legacyMatchOf ks r.method rem = none →
+        legacyFindOrd setSrv d ks r = .notFound ∨ legacyFindOrd setSrv d ks r = .methodNotAllowed) ∧
+    legacyFindOrd setSrv d ks r ≠ .panic := by
   refine ⟨?_, ?_, ?_⟩
-  · intro h; simp [legacyFind, hb, h]
-  · intro sp rem hs hm
-    simp only [legacyFind, hb, Bool.not_true, Bool.false_eq_true, if_false, hs, hm]
+  · intro h; simp [legacyFindOrd, hb, h]
+  · intro si sp rem hs hm
+    simp only [legacyFindOrd, hb, Bool.not_true, Bool.false_eq_true, if_false, hs, hm]
     split
     · exact Or.inl rfl
     · split
       · exact Or.inl rfl
       · exact Or.inr rfl
-  · unfold legacyFind
+  · unfold legacyFindOrd
     simp only [hb, Bool.not_true, Bool.false_eq_true, if_false]
     split
     · simp
@@ -122,47 +278,138 @@ theorem legacy_no_match_is_error (d : Doc) (r : Req) (hb : legacyBuildOK d = tru
         · simp
         · split <;> simp
 
+/-- error kinds (legacy): the answer is method-not-allowed exactly when a server matches, the trie finds nothing and the
+    remaining path is literally a declared template that lacks the request method; every other failure is path-not-found -/
+theorem legacy_method_not_allowed_iff (setSrv : Bool) (d : Doc) (ks : List Key) (r : Req) (hb : legacyBuildOK d = true) :
+    legacyFindOrd setSrv d ks r = .methodNotAllowed ↔
+      ∃ si sp rem pd, legacyServer d r = some (si, sp, rem) ∧ legacyMatchOf ks r.method rem = none ∧
+        lookupPath rem d.paths = some pd ∧ r.method ∉ pd.methods := by
+  unfold legacyFindOrd
+  simp only [hb, Bool.not_true, Bool.false_eq_true, if_false]
+  constructor
+  · intro h
+    split at h
+    · simp at h
+    · rename_i si sp rem hs
+      split at h
+      · simp at h
+      · rename_i hm
+        split at h
+        · simp at h
+        · rename_i pd hl
+          split at h
+          · simp at h
+          · rename_i hmem
+            exact ⟨si, sp, rem, pd, hs, hm, hl, hmem⟩
+  · rintro ⟨si, sp, rem, pd, hs, hm, hl, hmem⟩
+    simp [hs, hm, hl, hmem]
+
 /-! ## gorillamux router -/
 
-/-- every compiled mux route comes from a declared path item and one server -/
+/-- every compiled mux route comes from a declared path item and a server declared somewhere in the document
+    (document level or path-item level; the placeholder only when the document declares no server) -/
 theorem gorilla_routes_declared {d : Doc} {rs : List GRoute} (h : gorillaRoutes d = some rs) {r : GRoute} (hr : r ∈ rs) :
-    ∃ pd ∈ d.paths, ∃ s, mkRoute pd s = some r := by
-  unfold gorillaRoutes at h
+    ∃ pd ∈ d.paths, ∃ g, mkRoute pd g = some r ∧ DeclSrv d g := by
+  unfold gorillaRoutes gorillaRoutesL at h
   split at h
   · simp at h
-  · rename_i srvs _
-    have e := allSome_eq h
-    have : some r ∈ rs.map some := by simp [hr]
-    rw [← e] at this
-    simp only [List.mem_flatMap, List.mem_map] at this
-    obtain ⟨pd, hpd, s, _, hs⟩ := this
-    exact ⟨pd, (mem_inMatchingOrder _ _).1 hpd, s, hs⟩
+  · rename_i ds hds
+    obtain ⟨pd, hpd, g, hm, hg⟩ := gLoop_mem h r hr
+    refine ⟨pd, (mem_inMatchingOrder _ _).1 hpd, g, hm, ?_⟩
+    rcases hg with hg | hg | ⟨q, hq, hne, l, hl, hgl⟩
+    · exact Or.inl (gMakeServers_mem hds hg)
+    · exact Or.inl (gMakeServers_mem hds hg)
+    · exact Or.inr ⟨q, (mem_inMatchingOrder _ _).1 hq, hne, gMakeServers_mem hl hgl⟩
 
-/-- route_sound (gorillamux, full strength): a returned route carries the request method, its template is declared
-    with that method, and some assignment of non-empty slash-free values to the variables of
-    "server base path + template" reproduces the request path exactly -/
-theorem gorilla_route_sound (d : Doc) (req : Req) (t m : Str) (ps : List (Str × Str))
-    (h : gorillaFind d req = .route t m ps) :
+/-- route_sound (gorillamux, full strength): a returned route carries the request method; its template is declared with
+    that method; its `Route.Server` is (the pointer kept in) a compiled server `g` that is declared in the document and
+    that, together with the template, reproduces the request: path = base path of g + template filled with non-empty
+    slash-free values, scheme and host match g; the returned parameters are exactly the extracted values (plus the
+    default of a port variable) -/
+theorem gorilla_route_sound (d : Doc) (req : Req) (t m : Str) (ps : List (Str × Str)) (sv : SrvRef)
+    (h : gorillaFind d req = .route t m ps sv) :
     m = req.method ∧ ∃ pd ∈ d.paths, pd.template = t ∧ m ∈ pd.methods ∧
-      ∃ base toks b, gparseS (base ++ t) = some toks ∧ gsubst toks b = some req.path ∧ ∀ p ∈ b, GoodFor '/' p.2 := by
-  unfold gorillaFind at h
+      ∃ g b, g.ref = sv ∧ DeclSrv d g ∧ Reproduces g t req b ∧
+        ps = mapSetAll (mapSetAll [] b) (match g.upd with | some kv => [kv] | none => []) := by
+  unfold gorillaFind gorillaFindL at h
   split at h
   · simp at h
   · rename_i rs hrs
-    obtain ⟨pre, r, post, b, e, _, hm, ht, hmeth, hdecl⟩ := gFirst_route h
+    obtain ⟨pre, r, post, b, e, _, hm, ht, hmeth, hdecl, hsv, hps⟩ := gFirst_route h
     have hr : r ∈ rs := by rw [e]; simp
-    obtain ⟨pd, hpd, s, hmk⟩ := gorilla_routes_declared hrs hr
-    obtain ⟨e1, e2, e3, e4, _⟩ := mkRoute_some hmk
-    obtain ⟨pb, hpb⟩ := gRouteMatch_path hm
-    obtain ⟨g1, g2⟩ := gmatch_sound '/' _ _ _ hpb
-    refine ⟨hmeth, pd, hpd, by rw [← e1, ht], by rw [hmeth, ← e2]; exact hdecl, s.base, r.pathToks, pb, ?_, g1, g2⟩
-    rw [← ht, e1]; exact e4
+    obtain ⟨pd, hpd, g, hmk, hg⟩ := gorilla_routes_declared hrs hr
+    obtain ⟨e1, e2, e3, _, _⟩ := mkRoute_some hmk
+    refine ⟨hmeth, pd, hpd, by rw [← e1, ht], by rw [hmeth, ← e2]; exact hdecl, g, b, by rw [← e3]; exact hsv, hg, ?_, by rw [← e3]; exact hps⟩
+    rw [← ht, e1]
+    exact gRouteMatch_reproduces hmk hm
+
+/-- after the repair of the path-item servers leak the returned server is one of the servers that apply to the route's own
+    path item (its own `servers` when it declares some, otherwise the document's) — full strength -/
+theorem gorillaFixed_route_server_effective (d : Doc) (req : Req) (t m : Str) (ps : List (Str × Str)) (sv : SrvRef)
+    (h : gorillaFindFixed d req = .route t m ps sv) :
+    ∃ pd ∈ d.paths, pd.template = t ∧ m ∈ pd.methods ∧ ∃ g b, g.ref = sv ∧ EffSrv d pd g ∧ Reproduces g t req b := by
+  unfold gorillaFindFixed gorillaFindL at h
+  split at h
+  · simp at h
+  · rename_i rs hrs
+    obtain ⟨pre, r, post, b, e, _, hm, ht, hmeth, hdecl, hsv, _⟩ := gFirst_route h
+    have hr : r ∈ rs := by rw [e]; simp
+    unfold gorillaRoutesL at hrs
+    split at hrs
+    · simp at hrs
+    · rename_i ds hds
+      obtain ⟨pd, hpd, g, hmk, hg⟩ := (gLoop_fixed_mem hrs r).1 hr
+      obtain ⟨e1, e2, e3, _, _⟩ := mkRoute_some hmk
+      refine ⟨pd, (mem_inMatchingOrder _ _).1 hpd, by rw [← e1, ht], by rw [hmeth, ← e2]; exact hdecl, g, b,
+        by rw [← e3]; exact hsv, ?_, by rw [← ht, e1]; exact gRouteMatch_reproduces hmk hm⟩
+      unfold EffSrv
+      split
+      · rename_i he; simp only [he, if_true] at hg; exact gMakeServers_mem hds hg
+      · rename_i he
+        simp only [he, if_false] at hg
+        obtain ⟨l, hl, hgl⟩ := hg
+        exact gMakeServers_mem hl hgl
+
+/-- the leak of path-item servers is invisible unless, in matching order, a path item with `servers` precedes one without -/
+theorem gorilla_leak_only_on_shape (d : Doc) (req : Req) (hsh : leakShape (inMatchingOrder d.paths) = false) :
+    gorillaFind d req = gorillaFindFixed d req := by
+  unfold gorillaFind gorillaFindFixed gorillaFindL
+  rw [gorillaRoutes_leak_eq d hsh]
+
+/- Full statement (false for the code, finding F-C09-10: the servers of an earlier path item leak):
+     gorillaFind d req = .route t m ps sv → the server is one that applies to the path item of t.
+   What holds: … on documents without the leak shape. -/
+theorem gorilla_route_server_effective_partial (d : Doc) (req : Req) (t m : Str) (ps : List (Str × Str)) (sv : SrvRef)
+    (hsh : leakShape (inMatchingOrder d.paths) = false) (h : gorillaFind d req = .route t m ps sv) :
+    ∃ pd ∈ d.paths, pd.template = t ∧ m ∈ pd.methods ∧ ∃ g b, g.ref = sv ∧ EffSrv d pd g ∧ Reproduces g t req b := by
+  rw [gorilla_leak_only_on_shape d req hsh] at h
+  exact gorillaFixed_route_server_effective d req t m ps sv h
+
+/-- the `Route.Server` pointer of a server that applies to a path item: nil only if neither the path item nor the document
+    declares servers, otherwise the i-th server of the path item's own list, or of the document's when it has none -/
+theorem effSrv_ref (d : Doc) (pd : PathDecl) (g : GSrv) (h : EffSrv d pd g) :
+    (g.ref = .none ∧ pd.servers = [] ∧ d.servers = []) ∨
+    (∃ i, g.ref = .doc i ∧ pd.servers = [] ∧ i < d.servers.length) ∨
+    (∃ i, g.ref = .path pd.template i ∧ i < pd.servers.length) := by
+  unfold EffSrv at h
+  split at h
+  · rename_i he
+    rcases h with ⟨h1, h2⟩ | ⟨i, s, h1, h2⟩
+    · subst h2; exact Or.inl ⟨rfl, he, h1⟩
+    · refine Or.inr (Or.inl ⟨i, gMakeServer_ref h2, he, ?_⟩)
+      exact (List.getElem?_eq_some_iff.1 h1).1
+  · rename_i he
+    rcases h with ⟨h1, _⟩ | ⟨i, s, h1, h2⟩
+    · exact absurd h1 he
+    · refine Or.inr (Or.inr ⟨i, gMakeServer_ref h2, ?_⟩)
+      exact (List.getElem?_eq_some_iff.1 h1).1
 
 /-- no_match_is_error (gorillamux): the answer is path-not-found exactly when no compiled route matches the URL
     (path template, scheme set, host template) -/
 theorem gorilla_not_found_iff (d : Doc) (req : Req) (rs : List GRoute) (h : gorillaRoutes d = some rs) :
     gorillaFind d req = .notFound ↔ ∀ r ∈ rs, gRouteMatch r req = none := by
-  unfold gorillaFind
+  unfold gorillaFind gorillaFindL
+  unfold gorillaRoutes at h
   rw [h]
   exact gFirst_notFound_iff rs req
 
@@ -179,16 +426,71 @@ theorem gorilla_no_match_is_error (d : Doc) (req : Req) (rs : List GRoute) (h : 
     obtain ⟨g1, g2⟩ := gmatch_sound '/' _ _ _ hpb
     exact absurd g1 (hno r hr pb g2)
 
+/-- error kinds (gorillamux): method-not-allowed exactly when the first compiled route that matches the URL lacks the method -/
+theorem gorilla_method_not_allowed_iff (d : Doc) (req : Req) (rs : List GRoute) (h : gorillaRoutes d = some rs) :
+    gorillaFind d req = .methodNotAllowed ↔
+      ∃ pre r post, rs = pre ++ r :: post ∧ (∀ r' ∈ pre, gRouteMatch r' req = none) ∧
+        gRouteMatch r req ≠ none ∧ req.method ∉ r.methods := by
+  unfold gorillaFind gorillaFindL
+  unfold gorillaRoutes at h
+  rw [h]
+  clear h
+  induction rs with
+  | nil => simp [gFirst]
+  | cons r0 rs ih =>
+    simp only [gFirst]
+    split
+    · rename_i b hb
+      constructor
+      · intro hh
+        split at hh
+        · simp at hh
+        · rename_i hmeth
+          exact ⟨[], r0, rs, rfl, by simp, by simp [hb], hmeth⟩
+      · rintro ⟨pre, r, post, e, hpre, hm, hmeth⟩
+        cases pre with
+        | nil =>
+          simp only [List.nil_append, List.cons.injEq] at e
+          obtain ⟨rfl, _⟩ := e
+          simp [hmeth]
+        | cons p pre' =>
+          simp only [List.cons_append, List.cons.injEq] at e
+          obtain ⟨rfl, _⟩ := e
+          have := hpre r0 (by simp)
+          rw [hb] at this; simp at this
+    · rename_i hn
+      rw [ih]
+      constructor
+      · rintro ⟨pre, r, post, e, hpre, hm, hmeth⟩
+        refine ⟨r0 :: pre, r, post, by simp [e], ?_, hm, hmeth⟩
+        intro r' hr'
+        simp only [List.mem_cons] at hr'
+        rcases hr' with rfl | hr'
+        · exact hn
+        · exact hpre r' hr'
+      · rintro ⟨pre, r, post, e, hpre, hm, hmeth⟩
+        cases pre with
+        | nil =>
+          simp only [List.nil_append, List.cons.injEq] at e
+          obtain ⟨rfl, _⟩ := e
+          exact absurd hn hm
+        | cons p pre' =>
+          simp only [List.cons_append, List.cons.injEq] at e
+          obtain ⟨rfl, rfl⟩ := e
+          exact ⟨pre', r, post, rfl, fun r' hr' => hpre r' (by simp [hr']), hm, hmeth⟩
+
 /- Full statement (false for the code, finding #40):
      r ∈ routes, the request fills r's template and satisfies r's scheme/host, method declared under r → routed.
    What holds: … provided no matching route lacks the method (the first matching mux route decides). -/
 theorem gorilla_route_complete_partial (d : Doc) (req : Req) (rs : List GRoute) (h : gorillaRoutes d = some rs)
     (r : GRoute) (hr : r ∈ rs) (b : List (Str × Str))
     (hfill : gsubst r.pathToks b = some req.path) (hgood : ∀ p ∈ b, GoodFor '/' p.2)
-    (hscheme : schemeOK r req = true) (hhost : r.srv.host = [])
+    (hscheme : schemeOK r req = true)
+    (hhost : r.srv.host = [] ∨ ∃ hb, gsubst r.hostToks hb = some (hostFor r req) ∧ ∀ p ∈ hb, GoodFor '.' p.2)
     (hnoshadow : ∀ r' ∈ rs, gRouteMatch r' req ≠ none → req.method ∈ r'.methods) :
-    ∃ t ps, gorillaFind d req = .route t req.method ps := by
-  unfold gorillaFind
+    ∃ t ps sv, gorillaFind d req = .route t req.method ps sv := by
+  unfold gorillaFind gorillaFindL
+  unfold gorillaRoutes at h
   rw [h]
   apply gFirst_complete _ hnoshadow
   refine ⟨r, hr, ?_⟩
@@ -196,40 +498,86 @@ theorem gorilla_route_complete_partial (d : Doc) (req : Req) (rs : List GRoute) 
   unfold gRouteMatch
   cases hm : gmatch '/' r.pathToks req.path with
   | none => simp [hm] at hc
-  | some pb => simp [hscheme, hhost]
+  | some pb =>
+    rcases hhost with hh | ⟨hb, h1, h2⟩
+    · simp [hscheme, hh]
+    · have hc2 := gmatch_complete '.' _ _ _ h1 h2
+      cases hm2 : gmatch '.' r.hostToks (hostFor r req) with
+      | none => simp [hm2] at hc2
+      | some x => by_cases hh : r.srv.host = [] <;> simp [hscheme, hh]
 
-/-- route_complete for a document without servers: filling a declared template with non-empty slash-free values
-    and asking with a declared method is routed, unless another matching template lacks the method (#40) -/
+/-- the compiled route of a path item and a server that applies to it is in the route list (after the repair; as the code
+    is, on documents without the leak shape) -/
+theorem gorilla_route_listed (d : Doc) (rs : List GRoute) (h : gorillaRoutes d = some rs)
+    (hsh : leakShape (inMatchingOrder d.paths) = false)
+    (pd : PathDecl) (hpd : pd ∈ d.paths) (g : GSrv) (hg : EffSrv d pd g) (r : GRoute) (hmk : mkRoute pd g = some r) : r ∈ rs := by
+  unfold gorillaRoutes at h
+  rw [gorillaRoutes_leak_eq d hsh] at h
+  unfold gorillaRoutesL at h
+  split at h
+  · simp at h
+  · rename_i ds hds
+    refine (gLoop_fixed_mem h r).2 ⟨pd, (mem_inMatchingOrder _ _).2 hpd, g, hmk, ?_⟩
+    unfold EffSrv at hg
+    split
+    · rename_i he; simp only [he, if_true] at hg; exact gMakeServers_get hds hg
+    · rename_i he
+      simp only [he, if_false] at hg
+      obtain ⟨l, hl⟩ := gLoop_compiles h pd ((mem_inMatchingOrder _ _).2 hpd) he
+      exact ⟨l, hl, gMakeServers_get hl hg⟩
+
+/-- route_complete (gorillamux) under declared servers: a request that fills "base path + template" of a path item and
+    one of the servers that apply to it, with the server's scheme and host, and a declared method, is routed — unless
+    another matching route lacks the method (#40), on documents without the leak shape (F-C09-10) -/
+theorem gorilla_route_complete_servers_partial (d : Doc) (req : Req) (rs : List GRoute) (h : gorillaRoutes d = some rs)
+    (hsh : leakShape (inMatchingOrder d.paths) = false)
+    (pd : PathDecl) (hpd : pd ∈ d.paths) (g : GSrv) (hg : EffSrv d pd g) (r : GRoute) (hmk : mkRoute pd g = some r)
+    (b : List (Str × Str)) (hfill : gsubst r.pathToks b = some req.path) (hgood : ∀ p ∈ b, GoodFor '/' p.2)
+    (hscheme : schemeOK r req = true)
+    (hhost : r.srv.host = [] ∨ ∃ hb, gsubst r.hostToks hb = some (hostFor r req) ∧ ∀ p ∈ hb, GoodFor '.' p.2)
+    (hnoshadow : ∀ r' ∈ rs, gRouteMatch r' req ≠ none → req.method ∈ r'.methods) :
+    ∃ t ps sv, gorillaFind d req = .route t req.method ps sv :=
+  gorilla_route_complete_partial d req rs h r (gorilla_route_listed d rs h hsh pd hpd g hg r hmk) b hfill hgood hscheme hhost hnoshadow
+
+/-- route_complete for a document without servers (none at document level, none at path-item level): filling a declared
+    template with non-empty slash-free values and asking with a declared method is routed, unless another matching
+    template lacks the method (#40) -/
 theorem gorilla_route_complete_noservers_partial (d : Doc) (req : Req) (rs : List GRoute)
-    (hs : d.servers = []) (h : gorillaRoutes d = some rs)
+    (hs : d.servers = []) (hps : ∀ p ∈ d.paths, p.servers = []) (h : gorillaRoutes d = some rs)
     (pd : PathDecl) (hpd : pd ∈ d.paths) (toks : List GTok) (hp : gparseS pd.template = some toks)
     (hslash : pd.template.head? = some '/')
     (b : List (Str × Str)) (hfill : gsubst toks b = some req.path) (hgood : ∀ p ∈ b, GoodFor '/' p.2)
     (hnoshadow : ∀ r' ∈ rs, gRouteMatch r' req ≠ none → req.method ∈ r'.methods) :
-    ∃ t ps, gorillaFind d req = .route t req.method ps := by
-  have hr : (⟨pd.template, pd.methods, ⟨[], [], [], none⟩, toks, []⟩ : GRoute) ∈ rs := by
-    have h' := h
-    unfold gorillaRoutes at h'
-    simp only [hs, gMakeServers] at h'
-    have e := allSome_eq h'
-    have hm : mkRoute pd ⟨[], [], [], none⟩ = some ⟨pd.template, pd.methods, ⟨[], [], [], none⟩, toks, []⟩ := by
-      have hh : gparseS ([] : Str) = some [] := by simp [gparseS, gparse]
-      unfold mkRoute
-      simp only [List.nil_append, hp, hh]
-      simp [hslash, varNamesG]
-    have : some (⟨pd.template, pd.methods, ⟨[], [], [], none⟩, toks, []⟩ : GRoute) ∈ rs.map some := by
-      rw [← e]
-      simp only [List.mem_flatMap, List.mem_map]
-      exact ⟨pd, (mem_inMatchingOrder _ _).2 hpd, ⟨[], [], [], none⟩, by simp, hm⟩
-    simpa using this
-  exact gorilla_route_complete_partial d req rs h _ hr b hfill hgood (by simp [schemeOK]) rfl hnoshadow
+    ∃ t ps sv, gorillaFind d req = .route t req.method ps sv := by
+  have hsh : leakShape (inMatchingOrder d.paths) = false := by
+    have : ∀ l : List PathDecl, (∀ p ∈ l, p.servers = []) → leakShape l = false := by
+      intro l
+      induction l with
+      | nil => intro _; rfl
+      | cons x xs ih =>
+        intro hx
+        simp only [leakShape, Bool.or_eq_false_iff, Bool.and_eq_false_iff]
+        exact ⟨Or.inl (by simp [hx x (by simp)]), ih (fun p hp => hx p (by simp [hp]))⟩
+    exact this _ (fun p hp => hps p ((mem_inMatchingOrder _ _).1 hp))
+  have hm : mkRoute pd noSrv = some ⟨pd.template, pd.methods, noSrv, toks, []⟩ := by
+    have hh : gparseS ([] : Str) = some [] := by simp [gparseS, gparse]
+    unfold mkRoute
+    simp only [noSrv, List.nil_append, hp, hh]
+    simp [hslash, varNamesG]
+  have hg : EffSrv d pd noSrv := by
+    unfold EffSrv
+    simp only [hps pd hpd, if_true]
+    exact Or.inl ⟨hs, rfl⟩
+  exact gorilla_route_complete_servers_partial d req rs h hsh pd hpd noSrv hg _ hm b hfill hgood (by simp [schemeOK, noSrv])
+    (Or.inl rfl) hnoshadow
 
 /-- literal_wins (gorillamux): a route is returned only if no compiled route of a path with fewer variables
     matches the URL — in particular a templated path never wins over a matching literal path -/
 theorem gorilla_literal_wins (d : Doc) (req : Req) (rs : List GRoute) (hrs : gorillaRoutes d = some rs)
-    (t m : Str) (ps : List (Str × Str)) (h : gorillaFind d req = .route t m ps) :
+    (t m : Str) (ps : List (Str × Str)) (sv : SrvRef) (h : gorillaFind d req = .route t m ps sv) :
     ∀ r0 ∈ rs, nvars r0.template < nvars t → gRouteMatch r0 req = none := by
-  unfold gorillaFind at h
+  unfold gorillaFind gorillaFindL at h
+  unfold gorillaRoutes at hrs
   rw [hrs] at h
   obtain ⟨pre, r, post, b, e, hpre, _, ht, _, _⟩ := gFirst_route h
   have hpw := pairwise_routes hrs
@@ -259,8 +607,8 @@ theorem spec_oracle_iff (toks : List STok) (s : Str) (vs : List Str) (rest : Str
     (vs, rest) ∈ smatchP toks s ↔ Fills toks vs s rest := smatchP_iff toks s vs rest
 
 /-- every candidate of the spec is a declared template filled with good values that reproduces a remaining path -/
-theorem spec_cand_sound (method rem : Str) (pd : PathDecl) (c : Cand) (h : c ∈ candsFor method rem pd) :
-    c.template = pd.template ∧ c.declares = pd.methods.contains method ∧
+theorem spec_cand_sound (method rem : Str) (ref : SrvRef) (pd : PathDecl) (c : Cand) (h : c ∈ candsFor method rem ref pd) :
+    c.template = pd.template ∧ c.declares = pd.methods.contains method ∧ c.server = ref ∧
       ∃ vs, Fills (sparseS pd.template) vs rem [] ∧ c.params = (svarNames (sparseS pd.template)).zip vs := by
   simp only [candsFor, List.mem_filterMap] at h
   obtain ⟨⟨vs, rest⟩, hm, hc⟩ := h
@@ -270,8 +618,58 @@ theorem spec_cand_sound (method rem : Str) (pd : PathDecl) (c : Cand) (h : c ∈
     subst hr
     simp only [Option.some.injEq] at hc
     subst hc
-    exact ⟨rfl, rfl, vs, (smatchP_iff _ _ _ _).1 hm, rfl⟩
+    exact ⟨rfl, rfl, rfl, vs, (smatchP_iff _ _ _ _).1 hm, rfl⟩
   · simp at hc
+
+/-- a remaining path of the spec under a server: the server URL (one trailing slash ignored) with non-empty slash-free
+    values for its variables is a prefix of the request URL (relative server: of the request path) that ends at a segment
+    boundary, and the remaining path is what follows -/
+theorem spec_server_rem_sound (e : Bool) (s : Server) (r : Req) (rem : Str) (h : rem ∈ specServerRems e s r) :
+    ∃ vals, Fills (sparseS (dropOneSlash s.url)) vals
+        (if isRelativeURL (dropOneSlash s.url) then r.path else fullURL r) rem ∧
+      (rem = [] ∨ rem.head? = some '/') ∧
+      (e = true → enumOK s (svarNames (sparseS (dropOneSlash s.url))) vals = true) :=
+  specServerRems_sound e s r rem h
+
+/-- every candidate of the spec is a declared template, matched against what remains of the request after one of the
+    servers that apply to the template's path item — and the candidate names that server (`Route.Server` must be it) -/
+theorem spec_cand_server (e : Bool) (d : Doc) (r : Req) (c : Cand) (h : c ∈ specCands e d r) :
+    ∃ pd ∈ d.paths, c.template = pd.template ∧ c.declares = pd.methods.contains r.method ∧
+      ((pd.servers = [] ∧ d.servers = [] ∧ c.server = .none ∧ ∃ vs, Fills (sparseS pd.template) vs r.path []) ∨
+       (∃ i s, ((pd.servers = [] ∧ d.servers[i]? = some s ∧ c.server = .doc i) ∨
+                (pd.servers ≠ [] ∧ pd.servers[i]? = some s ∧ c.server = .path pd.template i)) ∧
+          ∃ rem ∈ specServerRems e s r, ∃ vs, Fills (sparseS pd.template) vs rem [])) := by
+  simp only [specCands, List.mem_flatMap] at h
+  obtain ⟨pd, hpd, hc⟩ := h
+  refine ⟨pd, hpd, ?_⟩
+  unfold specCandsPath at hc
+  split at hc
+  · rename_i heff
+    obtain ⟨h1, h2, h3, vs, h4, _⟩ := spec_cand_sound _ _ _ _ _ hc
+    refine ⟨h1, h2, Or.inl ?_⟩
+    unfold effServers at heff
+    split at heff
+    · rename_i hp
+      cases hd : d.servers with
+      | nil => exact ⟨hp, rfl, h3, vs, h4⟩
+      | cons a b => rw [hd] at heff; simp [tagFrom] at heff
+    · rename_i hp
+      cases hd : pd.servers with
+      | nil => exact absurd hd hp
+      | cons a b => rw [hd] at heff; simp [tagFrom] at heff
+  · rename_i ss hne
+    simp only [List.mem_flatMap] at hc
+    obtain ⟨⟨ref, s⟩, hrs, rem, hrem, hc⟩ := hc
+    obtain ⟨h1, h2, h3, vs, h4, _⟩ := spec_cand_sound _ _ _ _ _ hc
+    refine ⟨h1, h2, Or.inr ?_⟩
+    unfold effServers at hrs
+    split at hrs
+    · rename_i hp
+      obtain ⟨i, hi, href⟩ := mem_tagFrom hrs
+      exact ⟨i, s, Or.inl ⟨hp, hi, by rw [h3]; simpa using href⟩, rem, hrem, vs, h4⟩
+    · rename_i hp
+      obtain ⟨i, hi, href⟩ := mem_tagFrom hrs
+      exact ⟨i, s, Or.inr ⟨hp, hi, by rw [h3]; simpa using href⟩, rem, hrem, vs, h4⟩
 
 /-- the spec requires path-not-found exactly when there is no candidate -/
 theorem spec_notFound_iff (e : Bool) (d : Doc) (r : Req) :
@@ -324,12 +722,313 @@ theorem spec_route_allowed (e : Bool) (d : Doc) (r : Req) (cs : List Cand) (h : 
           rw [hnil] at this
           simp at this
 
+/-- a route is accepted by the oracle only if it carries the request method and names the template, the parameters and the
+    server of one candidate that declares the method -/
+theorem spec_accepts_route (d : Doc) (r : Req) (t m : Str) (ps : List (Str × Str)) (sv : SrvRef)
+    (h : specAccepts d r (.route t m ps sv) = true) :
+    m = r.method ∧ ∃ c ∈ specCands true d r, c.declares = true ∧ c.template = t ∧ c.server = sv ∧ paramsAgree c.params ps = true := by
+  unfold specAccepts at h
+  cases hso : specOutcome true d r with
+  | mk mu cs =>
+    rw [hso] at h
+    cases mu with
+    | notFound => simp at h
+    | error => simp at h
+    | route =>
+      simp only [Bool.and_eq_true, decide_eq_true_eq, List.any_eq_true] at h
+      obtain ⟨hm, c, hc, ⟨hct, hcp⟩, hcs⟩ := h
+      have hh := (spec_route_allowed true d r cs hso).1 c hc
+      exact ⟨hm, c, hh.1, hh.2, hct, hcs, hcp⟩
+
+/-! ## the gorillamux model against the spec, on documents whose servers are plain relative paths (`PlainDoc`: no server
+    variables, no scheme/host; document-level and path-item level servers, several base paths) without the leak shape -/
+
+/-- route_sound against the spec: a returned route is a candidate of the spec — same template, same binding, and the
+    `Route.Server` it names is the server under which the spec found the candidate — that declares the method -/
+theorem gorilla_refines_spec_sound (e : Bool) (d : Doc) (hd : PlainDoc d) (hsh : leakShape (inMatchingOrder d.paths) = false)
+    (req : Req) (t m : Str) (ps : List (Str × Str)) (sv : SrvRef) (h : gorillaFind d req = .route t m ps sv) :
+    m = req.method ∧ ∃ c ∈ specCands e d req, c.template = t ∧ c.server = sv ∧ c.declares = true ∧
+      ps = mapSetAll (mapSetAll [] c.params) [] := by
+  unfold gorillaFind gorillaFindL at h
+  split at h
+  · simp at h
+  · rename_i rs hrs
+    obtain ⟨pre, r, post, b, e0, _, hm, ht, hmeth, hdecl, hsv, hps⟩ := gFirst_route h
+    have hr : r ∈ rs := by rw [e0]; simp
+    obtain ⟨pd, hpd, g, hg, hmk⟩ := ((routes_effective hrs hsh).1 r).1 hr
+    obtain ⟨e1, e2, e3, _, _⟩ := mkRoute_some hmk
+    have hc := cand_of_match e d hd req pd hpd g hg b (gRouteMatch_reproduces hmk hm)
+    refine ⟨hmeth, _, List.mem_flatMap.2 ⟨pd, hpd, hc⟩, by rw [← e1, ht], by rw [← e3]; exact hsv, ?_, ?_⟩
+    · simp only [List.contains_iff_mem, decide_eq_true_eq]
+      rw [← e2]; exact hdecl
+    · have hupd : g.upd = none := by
+        unfold EffSrv at hg
+        have hcf : ∀ mk l, (∀ s ∈ l, PlainRel s) → CompiledFrom mk l g → g.upd = none := by
+          intro mk l hl hcf
+          rcases hcf with ⟨_, rfl⟩ | ⟨i, s, hi, hmks⟩
+          · rfl
+          · rw [gMakeServer_plainRel _ s (hl s (getElem?_mem' hi))] at hmks
+            simp only [Option.some.injEq] at hmks
+            subst hmks; rfl
+        split at hg
+        · exact hcf _ _ hd.1 hg
+        · exact hcf _ _ (hd.2 pd hpd).1 hg
+      rw [hps, e3, hupd]
+
+/-- no_match_is_error against the spec: the router answers path-not-found exactly when the spec has no candidate -/
+theorem gorilla_refines_spec_not_found (e : Bool) (d : Doc) (hd : PlainDoc d) (hsh : leakShape (inMatchingOrder d.paths) = false)
+    (rs : List GRoute) (hrs : gorillaRoutes d = some rs) (req : Req) :
+    gorillaFind d req = .notFound ↔ specCands e d req = [] := by
+  rw [gorilla_not_found_iff d req rs hrs]
+  unfold gorillaRoutes at hrs
+  obtain ⟨heff, hbuilt⟩ := routes_effective hrs hsh
+  constructor
+  · intro hall
+    apply List.eq_nil_iff_forall_not_mem.2
+    intro c hc
+    simp only [specCands, List.mem_flatMap] at hc
+    obtain ⟨pd, hpd, hcp⟩ := hc
+    obtain ⟨_, _, g, hg, _, hmatch⟩ := match_of_cand e d hd req pd hpd c hcp
+    obtain ⟨r, hmk⟩ := hbuilt pd hpd g hg
+    exact hmatch r hmk (hall r ((heff r).2 ⟨pd, hpd, g, hg, hmk⟩))
+  · intro hnil r hr
+    cases hm : gRouteMatch r req with
+    | none => rfl
+    | some b =>
+      exfalso
+      obtain ⟨pd, hpd, g, hg, hmk⟩ := (heff r).1 hr
+      have hc := cand_of_match e d hd req pd hpd g hg b (gRouteMatch_reproduces hmk hm)
+      have : (⟨pd.template, b, pd.methods.contains req.method, g.ref⟩ : Cand) ∈ specCands e d req :=
+        List.mem_flatMap.2 ⟨pd, hpd, hc⟩
+      rw [hnil] at this
+      simp at this
+
+/- Full statement (false for the code, finding #40): some candidate declares the method → routed.
+   What holds: … when every candidate of the spec declares the method (no matching template lacks it). -/
+theorem gorilla_refines_spec_complete_partial (e : Bool) (d : Doc) (hd : PlainDoc d)
+    (hsh : leakShape (inMatchingOrder d.paths) = false) (rs : List GRoute) (hrs : gorillaRoutes d = some rs) (req : Req)
+    (hex : specCands e d req ≠ []) (hall : ∀ c ∈ specCands e d req, c.declares = true) :
+    ∃ t ps sv, gorillaFind d req = .route t req.method ps sv := by
+  unfold gorillaFind gorillaFindL
+  unfold gorillaRoutes at hrs
+  rw [hrs]
+  obtain ⟨heff, hbuilt⟩ := routes_effective hrs hsh
+  apply gFirst_complete
+  · obtain ⟨c, hc⟩ := List.exists_mem_of_ne_nil _ hex
+    simp only [specCands, List.mem_flatMap] at hc
+    obtain ⟨pd, hpd, hcp⟩ := hc
+    obtain ⟨_, _, g, hg, _, hmatch⟩ := match_of_cand e d hd req pd hpd c hcp
+    obtain ⟨r, hmk⟩ := hbuilt pd hpd g hg
+    exact ⟨r, (heff r).2 ⟨pd, hpd, g, hg, hmk⟩, hmatch r hmk⟩
+  · intro r hr hm
+    cases hmm : gRouteMatch r req with
+    | none => exact absurd hmm hm
+    | some b =>
+      obtain ⟨pd, hpd, g, hg, hmk⟩ := (heff r).1 hr
+      have hc := cand_of_match e d hd req pd hpd g hg b (gRouteMatch_reproduces hmk hmm)
+      have hdecl := hall _ (List.mem_flatMap.2 ⟨pd, hpd, hc⟩)
+      simp only [List.contains_iff_mem, decide_eq_true_eq] at hdecl
+      rw [(mkRoute_some hmk).2.1]
+      exact hdecl
+
+/-- literal_wins against the spec: when some literal template is a candidate, the returned route is a literal template
+    (so, by `gorilla_refines_spec_sound`, one of the literal candidates) -/
+theorem gorilla_refines_spec_literal_wins (e : Bool) (d : Doc) (hd : PlainDoc d)
+    (hsh : leakShape (inMatchingOrder d.paths) = false) (rs : List GRoute) (hrs : gorillaRoutes d = some rs) (req : Req)
+    (t m : Str) (ps : List (Str × Str)) (sv : SrvRef) (h : gorillaFind d req = .route t m ps sv)
+    (c0 : Cand) (hc0 : c0 ∈ specCands e d req) (hlit : isLiteralT c0.template = true) : isLiteralT t = true := by
+  have hwin := gorilla_literal_wins d req rs hrs t m ps sv h
+  have hrs' := hrs
+  unfold gorillaRoutes at hrs'
+  obtain ⟨heff, hbuilt⟩ := routes_effective hrs' hsh
+  -- the literal candidate's route matches the request
+  simp only [specCands, List.mem_flatMap] at hc0
+  obtain ⟨pd0, hpd0, hcp0⟩ := hc0
+  obtain ⟨ht0, _, g0, hg0, _, hmatch0⟩ := match_of_cand e d hd req pd0 hpd0 c0 hcp0
+  obtain ⟨r0, hmk0⟩ := hbuilt pd0 hpd0 g0 hg0
+  have hr0 : r0 ∈ rs := (heff r0).2 ⟨pd0, hpd0, g0, hg0, hmk0⟩
+  obtain ⟨tt0, htt0⟩ := template_parses hd hpd0 hg0 hmk0
+  have hn0 : nvars r0.template = 0 := by
+    rw [(mkRoute_some hmk0).1, ← ht0]
+    exact (isLiteralT_iff_nvars (by rw [ht0]; exact htt0)).1 hlit
+  -- the returned route's template parses as well
+  unfold gorillaFind gorillaFindL at h
+  rw [hrs'] at h
+  obtain ⟨pre, r, post, b, e0, _, _, ht, _, _, _, _⟩ := gFirst_route h
+  have hr : r ∈ rs := by rw [e0]; simp
+  obtain ⟨pd, hpd, g, hg, hmk⟩ := (heff r).1 hr
+  obtain ⟨tt, htt⟩ := template_parses hd hpd hg hmk
+  have htpl : pd.template = t := by rw [← (mkRoute_some hmk).1, ht]
+  rw [htpl] at htt
+  refine (isLiteralT_iff_nvars htt).2 ?_
+  cases hnt : nvars t with
+  | zero => rfl
+  | succ n =>
+    exfalso
+    exact hmatch0 r0 hmk0 (hwin r0 hr0 (by rw [hn0, hnt]; omega))
+
+/-! ## the legacy model against the spec, on documents without servers -/
+
+/- Full statement (false for the code, finding #14): a route returned by the legacy router is a candidate of the spec.
+   What holds: … when every bound value is non-empty and neither the request path nor the returned template ends in '/'
+   (document without servers, no `{name*}` wildcard, method names without '/', '{' or space). -/
+theorem legacy_refines_spec_sound_partial (setSrv e : Bool) (d : Doc) (hs : d.servers = []) (hps : ∀ p ∈ d.paths, p.servers = [])
+    (ks : List Key) (hks : ∀ k ∈ ks, k ∈ docKeys d) (r : Req) (t m : Str) (ps : List (Str × Str)) (sv : SrvRef)
+    (h : legacyFindOrd setSrv d ks r = .route t m ps sv)
+    (hmeth : '/' ∉ m ∧ '{' ∉ m ∧ ' ' ∉ m ∧ ' ' ∉ r.method)
+    (ht : t.head? = some '/') (htl : t.getLast? ≠ some '/') (hrl : r.path.getLast? ≠ some '/')
+    (hne : ∀ k vals, legacyMatchOf ks r.method r.path = some (k, vals) → (∀ v ∈ vals, v ≠ []) ∧ NoWildcard k.toks) :
+    m = r.method ∧ sv = .none ∧ ∃ c ∈ specCands e d r, c.template = t ∧ c.server = .none ∧ c.declares = true := by
+  have hbuild : legacyBuildOK d = true := by
+    unfold legacyFindOrd at h
+    cases hb : legacyBuildOK d with
+    | true => rfl
+    | false => simp [hb] at h
+  obtain ⟨si, sp, rem, k, vals, hsrv, hmatch, hkt, hkm, hsv, ⟨pd, hpd, hpt, hpm⟩, _⟩ :=
+    legacy_route_sound_partial setSrv d ks hks r t m ps sv h
+  have hsrv' := (legacy_server_none d r [] r.path).2 ⟨hs, rfl, rfl⟩
+  rw [hsrv'] at hsrv
+  simp only [Option.some.injEq, Prod.mk.injEq] at hsrv
+  obtain ⟨rfl, rfl, rfl⟩ := hsrv
+  simp only at hsv
+  obtain ⟨hvne, hnw⟩ := hne k vals hmatch
+  -- the path of the trie that was followed is the key's own
+  obtain ⟨ext, path, e0, e1, e3, e4⟩ := match_sound.1 (legacyRootOf ks) _ [] (k, vals) hmatch
+  simp only [List.nil_append] at e1
+  subst e1
+  have hpath : path = k.sufs := by
+    rcases build_paths ks emptyNode (path, k) e0 with h0 | ⟨_, h2⟩
+    · simp [paths_empty] at h0
+    · exact h2
+  subst hpath
+  have hspell := e3 hvne (key_sufs_wf k)
+  -- the looked-up string has no trailing slash
+  have hlast : (r.method ++ ' ' :: r.path).getLast? ≠ some '/' := by
+    cases hp : r.path with
+    | nil => simp
+    | cons c cs =>
+      have e : r.method ++ ' ' :: (c :: cs) = (r.method ++ [' ']) ++ (c :: cs) := by simp
+      rw [e, getLast?_append_of_ne_nil _ (by simp), ← hp]
+      exact hrl
+  rw [stripSlashes_id hlast] at hspell
+  -- the key's tokens
+  have hk : k ∈ docKeys d := hks k (legacy_match_declared ks _ _ _ _ hmatch)
+  have htok : (tokenize k.str).isSome = true := by
+    unfold legacyBuildOK at hbuild
+    exact List.all_eq_true.1 hbuild k hk
+  cases hto : tokenize k.str with
+  | none => rw [hto] at htok; simp at htok
+  | some toks =>
+    have hstr : k.str = k.method ++ ' ' :: k.template := rfl
+    rw [hstr, hkt, hkm] at hto
+    obtain ⟨toks', rfl, htl'⟩ := key_toks m t hmeth.1 hmeth.2.1 ht htl toks hto
+    have hsufs : k.sufs = Suf.const (m ++ [' ']) :: toks'.map Tok.suf := by
+      unfold Key.sufs Key.toks
+      rw [hstr, hkt, hkm, hto]
+      rfl
+    have hktoks : k.toks = Tok.const (m ++ [' ']) :: toks' := by
+      unfold Key.toks
+      rw [hstr, hkt, hkm, hto]
+      rfl
+    rw [hsufs] at hspell e4
+    simp only [spell, Option.map_eq_some_iff] at hspell
+    obtain ⟨x, hx, hxe⟩ := hspell
+    have hxe' : m ++ ' ' :: x = r.method ++ ' ' :: r.path := by simpa using hxe
+    obtain ⟨hmm, rfl⟩ := split_at_space m r.method x r.path hmeth.2.2.1 hmeth.2.2.2 hxe'
+    have hnw' : NoWildcard toks' := by
+      intro tk htk n
+      exact hnw tk (by rw [hktoks]; simp [htk]) n
+    have hfill := ssubst_of_spell _ t toks' htl' hnw' vals r.path hx
+    have hslash : ∀ v ∈ vals, '/' ∉ v := by
+      apply varVals_slashfree (toks'.map Tok.suf) vals (by simpa [VarVals] using e4) ?_ r.path hx
+      intro s hs' heq
+      simp only [List.mem_map] at hs'
+      obtain ⟨tk, htk, rfl⟩ := hs'
+      cases tk with
+      | const p => simp [Tok.suf] at heq
+      | var n => simp [Tok.suf] at heq
+      | all n => exact hnw' _ htk n rfl
+    refine ⟨hmm, hsv, ⟨t, (svarNames (sparseS t)).zip vals, pd.methods.contains r.method, SrvRef.none⟩, ?_, rfl, rfl, ?_⟩
+    · simp only [specCands, List.mem_flatMap]
+      refine ⟨pd, hpd, ?_⟩
+      have heff : effServers d pd = [] := by simp [effServers, hps pd hpd, hs, tagFrom]
+      unfold specCandsPath
+      rw [heff]
+      simp only [candsFor, List.mem_filterMap]
+      refine ⟨(vals, []), ?_, by simp [hpt]⟩
+      rw [hpt]
+      exact (smatchP_iff _ _ _ _).2 ⟨fun v hv => ⟨hvne v hv, hslash v hv⟩, r.path, hfill, by simp⟩
+    · simp only [List.contains_iff_mem, decide_eq_true_eq]
+      rw [← hmm]; exact hpm
+
+/- Full statement (false for the code: documented limitation "variable followed by text in the same segment", F-C09-4):
+     a candidate of the spec that declares the method → the legacy router returns a route.
+   What holds: … when no variable of the candidate's template is followed by more text in its segment (document without
+   servers; no trailing slashes, no wildcard, method names without '/' and '{'); the route may be that of another
+   overlapping template (`legacy_match_declared`), a literal one if there is one (`legacy_literal_wins`). -/
+theorem legacy_refines_spec_complete_partial (setSrv e : Bool) (d : Doc) (hs : d.servers = []) (hps : ∀ p ∈ d.paths, p.servers = [])
+    (hb : legacyBuildOK d = true) (ks : List Key) (hks : ∀ k ∈ docKeys d, k ∈ ks) (r : Req)
+    (c : Cand) (hc : c ∈ specCands e d r) (hdecl : c.declares = true)
+    (hmeth : '/' ∉ r.method ∧ '{' ∉ r.method) (hrl : r.path.getLast? ≠ some '/')
+    (ht : c.template.head? = some '/') (htl : c.template.getLast? ≠ some '/')
+    (hnw : NoWildcard (⟨r.method, c.template⟩ : Key).toks) (hvt : varThenLiteral (sparseS c.template) = false) :
+    ∃ t m ps sv, legacyFindOrd setSrv d ks r = .route t m ps sv := by
+  obtain ⟨pd, hpd, hct, hcd, hcase⟩ := spec_cand_server e d r c hc
+  have hfill : ∃ vs, Fills (sparseS pd.template) vs r.path [] := by
+    rcases hcase with ⟨_, _, _, h⟩ | ⟨i, s, hh, _⟩
+    · exact h
+    · rcases hh with ⟨_, hi, _⟩ | ⟨hne, _, _⟩
+      · rw [hs] at hi; simp at hi
+      · exact absurd (hps pd hpd) hne
+  obtain ⟨vs, hgood, p, hp, hpp⟩ := hfill
+  simp only [List.append_nil] at hpp
+  subst hpp
+  have hm : r.method ∈ pd.methods := by
+    rw [hcd] at hdecl
+    simpa [List.contains_iff_mem] using hdecl
+  let k : Key := ⟨r.method, c.template⟩
+  have hk : k ∈ docKeys d := (docKeys_declared d k).2 ⟨pd, hpd, hct.symm, hm⟩
+  have htok : (tokenize k.str).isSome = true := by
+    unfold legacyBuildOK at hb
+    exact List.all_eq_true.1 hb k hk
+  cases hto : tokenize k.str with
+  | none => rw [hto] at htok; simp at htok
+  | some toks =>
+    have hstr : k.str = r.method ++ ' ' :: c.template := rfl
+    have hto' := hto
+    rw [hstr] at hto'
+    obtain ⟨toks', rfl, htl'⟩ := key_toks r.method c.template hmeth.1 hmeth.2 ht htl toks hto'
+    have hktoks : k.toks = Tok.const (r.method ++ [' ']) :: toks' := by
+      show (tokenize k.str).getD [] = _
+      rw [hto]; rfl
+    have hsufs : k.sufs = Suf.const (r.method ++ [' ']) :: toks'.map Tok.suf := by
+      show k.toks.map Tok.suf = _
+      rw [hktoks]; rfl
+    have hnw' : NoWildcard toks' := by
+      intro tk htk n
+      exact hnw tk (by show tk ∈ k.toks; rw [hktoks]; simp [htk]) n
+    rw [← hct] at hp
+    have hreads := reads_of_ssubst _ c.template toks' htl' hnw' hvt vs r.path (fun v hv => (hgood v hv).2) hp
+    have hlast : (r.method ++ ' ' :: r.path).getLast? ≠ some '/' := by
+      cases hpth : r.path with
+      | nil => simp
+      | cons c0 cs0 =>
+        have e0 : r.method ++ ' ' :: (c0 :: cs0) = (r.method ++ [' ']) ++ (c0 :: cs0) := by simp
+        rw [e0, getLast?_append_of_ne_nil _ (by simp), ← hpth]
+        exact hrl
+    have hr : Reads k.sufs vs (stripSlashes (r.method ++ ' ' :: r.path)) := by
+      rw [stripSlashes_id hlast, hsufs]
+      have := Reads.const (r.method ++ [' ']) hreads
+      simpa using this
+    have hsrv : legacyServer d r = some (none, [], r.path) := (legacy_server_none d r [] r.path).2 ⟨hs, rfl, rfl⟩
+    exact legacy_route_complete_partial setSrv d ks r none [] r.path k vs hb hsrv (hks k hk) hr
+
 /-! ## witnesses: inside each exclusion class the modelled code really differs from the spec -/
 
 open W in
 /-- finding #14: legacy routes GET /b to /b/{x} with x = "" ; the property requires path-not-found -/
 theorem witness_legacy14_empty_binding :
-    legacyFind d14 (req "GET" "/b") = .route (s "/b/{x}") get [(s "x", [])] ∧
+    legacyFind d14 (req "GET" "/b") = .route (s "/b/{x}") get [(s "x", [])] .none ∧
     specOutcome true d14 (req "GET" "/b") = (.notFound, []) ∧
     specAccepts d14 (req "GET" "/b") (legacyFind d14 (req "GET" "/b")) = false ∧
     exclLegacy14 .legacy d14 (req "GET" "/b") = true ∧
@@ -338,7 +1037,7 @@ theorem witness_legacy14_empty_binding :
 open W in
 /-- finding #14: /a//c/1 is routed to /a/{x}/c/{y} with x = "" -/
 theorem witness_legacy14_double_slash :
-    legacyFind d14b (req "GET" "/a//c/1") = .route (s "/a/{x}/c/{y}") get [(s "x", []), (s "y", s "1")] ∧
+    legacyFind d14b (req "GET" "/a//c/1") = .route (s "/a/{x}/c/{y}") get [(s "x", []), (s "y", s "1")] .none ∧
     specAccepts d14b (req "GET" "/a//c/1") (legacyFind d14b (req "GET" "/a//c/1")) = false ∧
     exclLegacy14 .legacy d14b (req "GET" "/a//c/1") = true ∧
     gorillaFind d14b (req "GET" "/a//c/1") = .notFound := by decide +kernel
@@ -346,7 +1045,7 @@ theorem witness_legacy14_double_slash :
 open W in
 /-- finding #14: the trailing slash of /a/zz/ is stripped and the request routed to /a/{x} -/
 theorem witness_legacy14_trailing_slash :
-    legacyFind d14c (req "GET" "/a/zz/") = .route (s "/a/{x}") get [(s "x", s "zz")] ∧
+    legacyFind d14c (req "GET" "/a/zz/") = .route (s "/a/{x}") get [(s "x", s "zz")] .none ∧
     specAccepts d14c (req "GET" "/a/zz/") (legacyFind d14c (req "GET" "/a/zz/")) = false ∧
     exclLegacy14 .legacy d14c (req "GET" "/a/zz/") = true ∧
     gorillaFind d14c (req "GET" "/a/zz/") = .notFound := by decide +kernel
@@ -355,16 +1054,16 @@ open W in
 /-- finding #40: gorillamux answers method-not-allowed for GET /a/b; the spec (and the legacy router) route it to /a/{x} -/
 theorem witness_gorilla_shadow40 :
     gorillaFind d40 (req "GET" "/a/b") = .methodNotAllowed ∧
-    specOutcome true d40 (req "GET" "/a/b") = (.route, [⟨s "/a/{x}", [(s "x", s "b")], true⟩]) ∧
+    specOutcome true d40 (req "GET" "/a/b") = (.route, [⟨s "/a/{x}", [(s "x", s "b")], true, .none⟩]) ∧
     specAccepts d40 (req "GET" "/a/b") (gorillaFind d40 (req "GET" "/a/b")) = false ∧
     exclGorillaShadow40 .gorilla d40 (req "GET" "/a/b") = true ∧
-    legacyFind d40 (req "GET" "/a/b") = .route (s "/a/{x}") get [(s "x", s "b")] := by decide +kernel
+    legacyFind d40 (req "GET" "/a/b") = .route (s "/a/{x}") get [(s "x", s "b")] .none := by decide +kernel
 
 open W in
 /-- finding #33: both routers accept env = qa although enum = [prod, dev] -/
 theorem witness_srv_enum33 :
-    legacyFind d33 r33 = .route (s "/a") get [(s "env", s "qa")] ∧
-    gorillaFind d33 r33 = .route (s "/a") get [(s "env", s "qa")] ∧
+    legacyFind d33 r33 = .route (s "/a") get [(s "env", s "qa")] .none ∧
+    gorillaFind d33 r33 = .route (s "/a") get [(s "env", s "qa")] (.doc 0) ∧
     specOutcome true d33 r33 = (.notFound, []) ∧
     exclSrvEnum33 d33 r33 = true ∧
     exclSrvEnum33 d33 r33ok = false ∧
@@ -374,7 +1073,7 @@ open W in
 /-- documented legacy limitation: /books/7.json is not routed to /books/{id}.json (gorillamux routes it) -/
 theorem witness_legacy_var_then_literal :
     legacyFind dMid (req "GET" "/books/7.json") = .notFound ∧
-    gorillaFind dMid (req "GET" "/books/7.json") = .route (s "/books/{id}.json") get [(s "id", s "7")] ∧
+    gorillaFind dMid (req "GET" "/books/7.json") = .route (s "/books/{id}.json") get [(s "id", s "7")] .none ∧
     (specOutcome true dMid (req "GET" "/books/7.json")).1 = .route ∧
     exclLegacyVarThenLiteral .legacy dMid = true := by decide +kernel
 
@@ -384,17 +1083,69 @@ theorem witness_legacy_url_form :
     legacyFind dForm rFormAbs = .notFound ∧
     (specOutcome true dForm rFormAbs).1 = .route ∧
     exclLegacyURLForm .legacy dForm rFormAbs = true ∧
-    legacyFind dForm rFormRel = .route (s "/a") get [] ∧
+    legacyFind dForm rFormRel = .route (s "/a") get [] .none ∧
     exclLegacyURLForm .legacy dForm rFormRel = false ∧
-    gorillaFind dForm rFormAbs = .route (s "/a") get [] := by decide +kernel
+    gorillaFind dForm rFormAbs = .route (s "/a") get [] (.doc 0) := by decide +kernel
 
 open W in
 /-- new finding: the legacy router commits to the first matching server; gorillamux and the spec route the request -/
 theorem witness_legacy_first_server :
     legacyFind dFirst rFirst = .notFound ∧
-    gorillaFind dFirst rFirst = .route (s "/b") (s "PUT") [(s "ver", s "v2")] ∧
-    specOutcome true dFirst rFirst = (.route, [⟨s "/b", [], true⟩]) ∧
+    gorillaFind dFirst rFirst = .route (s "/b") (s "PUT") [(s "ver", s "v2")] (.doc 1) ∧
+    specOutcome true dFirst rFirst = (.route, [⟨s "/b", [], true, .doc 1⟩]) ∧
     exclLegacyFirstServer .legacy dFirst rFirst = true := by decide +kernel
+
+open W in
+/-- F-C09-8: with two servers of different base paths gorillamux returns the server the request came through; the legacy
+    router returns a route without server (the model of the repaired router returns it) -/
+theorem witness_legacy_no_route_server :
+    gorillaFind dTwo (reqRel "GET" "/v2/x/a") = .route (s "/a") get [] (.doc 1) ∧
+    gorillaFind dTwo (reqRel "GET" "/v1/b/7") = .route (s "/b/{x}") get [(s "x", s "7")] (.doc 0) ∧
+    legacyFind dTwo (reqRel "GET" "/v2/x/a") = .route (s "/a") get [] .none ∧
+    legacyFindFixed dTwo (reqRel "GET" "/v2/x/a") = .route (s "/a") get [] (.doc 1) ∧
+    specOutcome true dTwo (reqRel "GET" "/v2/x/a") = (.route, [⟨s "/a", [], true, .doc 1⟩]) ∧
+    specAccepts dTwo (reqRel "GET" "/v2/x/a") (legacyFind dTwo (reqRel "GET" "/v2/x/a")) = false ∧
+    specAccepts dTwo (reqRel "GET" "/v2/x/a") (legacyFindFixed dTwo (reqRel "GET" "/v2/x/a")) = true ∧
+    specAccepts dTwo (reqRel "GET" "/v2/x/a") (gorillaFind dTwo (reqRel "GET" "/v2/x/a")) = true ∧
+    specAccepts dTwo (reqRel "GET" "/v2/x/a") (.route (s "/a") get [] (.doc 0)) = false ∧
+    exclLegacyNoRouteServer .legacy dTwo (reqRel "GET" "/v2/x/a") = true := by decide +kernel
+
+open W in
+/-- F-C09-7: /a and /a/ share a node of the legacy trie; the key added last wins, so GET /a reaches /a/ in one insertion
+    order and /a in the other; the property requires the literal /a; gorillamux keeps the two apart -/
+theorem witness_legacy_key_collision :
+    legacyFindOrd false dColl (docKeys dColl) (req "GET" "/a") = .route (s "/a/") get [] .none ∧
+    legacyFindOrd false dColl (docKeys dColl).reverse (req "GET" "/a") = .route (s "/a") get [] .none ∧
+    (legacyFindAll false dColl (req "GET" "/a")).length = 2 ∧
+    specOutcome true dColl (req "GET" "/a") = (.route, [⟨s "/a", [], true, .none⟩]) ∧
+    exclLegacyKeyCollision .legacy dColl = true ∧
+    gorillaFind dColl (req "GET" "/a") = .route (s "/a") get [] .none ∧
+    gorillaFind dColl (req "GET" "/a/") = .route (s "/a/") get [] .none := by decide +kernel
+
+open W in
+/-- F-C09-10: the servers of path item /b stay in force for /a, which comes after it in matching order and declares none -/
+theorem witness_gorilla_path_servers_leak :
+    leakShape (inMatchingOrder dLeak.paths) = true ∧
+    gorillaFind dLeak (reqRel "GET" "/v1/a") = .notFound ∧
+    gorillaFind dLeak (reqRel "GET" "/p/a") = .route (s "/a") get [] (.path (s "/b") 0) ∧
+    gorillaFindFixed dLeak (reqRel "GET" "/v1/a") = .route (s "/a") get [] (.doc 0) ∧
+    gorillaFindFixed dLeak (reqRel "GET" "/p/a") = .notFound ∧
+    specOutcome true dLeak (reqRel "GET" "/v1/a") = (.route, [⟨s "/a", [], true, .doc 0⟩]) ∧
+    specOutcome true dLeak (reqRel "GET" "/p/a") = (.notFound, []) ∧
+    exclGorillaPathServersLeak .gorilla dLeak (reqRel "GET" "/v1/a") = true ∧
+    exclGorillaPathServersLeak .gorilla dLeak (reqRel "GET" "/p/b") = false ∧
+    gorillaFind dLeak (reqRel "GET" "/p/b") = .route (s "/b") get [] (.path (s "/b") 0) := by decide +kernel
+
+open W in
+/-- F-C09-9: the legacy router does not read path-item level servers -/
+theorem witness_legacy_path_servers :
+    legacyFind dPathSrv (reqRel "GET" "/v1/a") = .route (s "/a") get [] .none ∧
+    specOutcome true dPathSrv (reqRel "GET" "/v1/a") = (.notFound, []) ∧
+    legacyFind dPathSrv (reqRel "GET" "/p/a") = .notFound ∧
+    specOutcome true dPathSrv (reqRel "GET" "/p/a") = (.route, [⟨s "/a", [], true, .path (s "/a") 0⟩]) ∧
+    gorillaFind dPathSrv (reqRel "GET" "/p/a") = .route (s "/a") get [] (.path (s "/a") 0) ∧
+    exclLegacyPathServers .legacy dPathSrv (reqRel "GET" "/v1/a") = true ∧
+    exclLegacyPathServers .legacy dPathSrv (reqRel "GET" "/p/a") = true := by decide +kernel
 
 /-! ## non-vacuity: the hypotheses of the theorems are satisfiable on a non-trivial document -/
 
@@ -402,15 +1153,15 @@ open W in
 /-- both routers, family with shared prefixes, server with host and port variables and a trailing slash:
     literal wins, two variables are extracted, mid-segment variable, unknown method, near miss -/
 example :
-    legacyFind dFam (rFam "GET" "/v1/a/b") = .route (s "/a/b") get [(s "env", s "dev"), (s "port", s "8443")] ∧
-    gorillaFind dFam (rFam "GET" "/v1/a/b") = .route (s "/a/b") get [(s "env", s "dev"), (s "port", s "8443")] ∧
+    legacyFind dFam (rFam "GET" "/v1/a/b") = .route (s "/a/b") get [(s "env", s "dev"), (s "port", s "8443")] .none ∧
+    gorillaFind dFam (rFam "GET" "/v1/a/b") = .route (s "/a/b") get [(s "env", s "dev"), (s "port", s "8443")] (.doc 0) ∧
     legacyFind dFam (rFam "GET" "/v1/a/7/c/9") =
-      .route (s "/a/{x}/c/{y}") get [(s "env", s "dev"), (s "port", s "8443"), (s "x", s "7"), (s "y", s "9")] ∧
+      .route (s "/a/{x}/c/{y}") get [(s "env", s "dev"), (s "port", s "8443"), (s "x", s "7"), (s "y", s "9")] .none ∧
     gorillaFind dFam (rFam "GET" "/v1/a/7/c/9") =
-      .route (s "/a/{x}/c/{y}") get [(s "env", s "dev"), (s "x", s "7"), (s "y", s "9"), (s "port", s "8443")] ∧
-    gorillaFind dFam (rFam "GET" "/v1/report.pdf") = .route (s "/report.{format}") get [(s "env", s "dev"), (s "format", s "pdf"), (s "port", s "8443")] ∧
-    legacyFind dFam (rFam "POST" "/v1/a/7") = .route (s "/a/{x}") post [(s "env", s "dev"), (s "port", s "8443"), (s "x", s "7")] ∧
-    specAccepts dFam (rFam "GET" "/v1/a/7/c/9") (legacyFind dFam (rFam "GET" "/v1/a/7/c/9")) = true ∧
+      .route (s "/a/{x}/c/{y}") get [(s "env", s "dev"), (s "x", s "7"), (s "y", s "9"), (s "port", s "8443")] (.doc 0) ∧
+    gorillaFind dFam (rFam "GET" "/v1/report.pdf") = .route (s "/report.{format}") get [(s "env", s "dev"), (s "format", s "pdf"), (s "port", s "8443")] (.doc 0) ∧
+    legacyFind dFam (rFam "POST" "/v1/a/7") = .route (s "/a/{x}") post [(s "env", s "dev"), (s "port", s "8443"), (s "x", s "7")] .none ∧
+    specAccepts dFam (rFam "GET" "/v1/a/7/c/9") (legacyFindFixed dFam (rFam "GET" "/v1/a/7/c/9")) = true ∧
     specAccepts dFam (rFam "GET" "/v1/a/b") (gorillaFind dFam (rFam "GET" "/v1/a/b")) = true ∧
     exclLegacy14 .legacy dFam (rFam "GET" "/v1/a/7/c/9") = false ∧
     legacyFind dFam (rFam "FOO" "/v1/a/b") = .methodNotAllowed ∧
@@ -440,8 +1191,58 @@ example : (⟨get, s "/a/{x}/c/{y}"⟩ : Key) ∈ docKeys dFam ∧
 open W in
 /-- the hypotheses of `gorilla_route_complete_noservers_partial` (no shadowing route) hold for GET /a/zz on d40 -/
 example : ∃ rs, gorillaRoutes d40 = some rs ∧ (∀ r' ∈ rs, gRouteMatch r' (req "GET" "/a/zz") ≠ none → get ∈ r'.methods) ∧
-    gorillaFind d40 (req "GET" "/a/zz") = .route (s "/a/{x}") get [(s "x", s "zz")] := by
+    gorillaFind d40 (req "GET" "/a/zz") = .route (s "/a/{x}") get [(s "x", s "zz")] .none := by
   refine ⟨(gorillaRoutes d40).getD [], by decide +kernel, ?_, by decide +kernel⟩
   decide +kernel
+
+open W in
+/-- the hypotheses of `gorilla_route_server_effective_partial` hold on a document with two servers and on one with path-item
+    level servers on every path (no leak shape), and a route is returned -/
+example : leakShape (inMatchingOrder dTwo.paths) = false ∧ leakShape (inMatchingOrder dPathSrv.paths) = false ∧
+    gorillaFind dTwo (reqRel "GET" "/v2/x/b/7") = .route (s "/b/{x}") get [(s "x", s "7")] (.doc 1) := by decide +kernel
+
+open W in
+/-- the hypotheses of `legacy_literal_wins` hold for the literal key GET /a/b of the family (which also holds /a/{x}), in
+    both insertion orders, with a trailing slash on the request -/
+example : (⟨get, s "/a/b"⟩ : Key) ∈ docKeys dFam ∧ '{' ∉ (⟨get, s "/a/b"⟩ : Key).str ∧
+    stripSlashes (get ++ ' ' :: s "/a/b/") = stripSlashes (⟨get, s "/a/b"⟩ : Key).str ∧
+    legacyMatchOf (docKeys dFam) get (s "/a/b/") = some (⟨get, s "/a/b"⟩, []) ∧
+    legacyMatchOf (docKeys dFam).reverse get (s "/a/b") = some (⟨get, s "/a/b"⟩, []) := by decide +kernel
+
+open W in
+/-- the hypotheses of `legacy_server_sound` hold: second of two servers matched, first one rejected -/
+example : legacyServer dTwo (reqRel "GET" "/v2/x/a") = some (some 1, [], s "/a") := by decide +kernel
+
+open W in
+/-- the hypotheses of the `gorilla_refines_spec_*` theorems hold for the document with two servers of different base
+    paths and for the one whose only path item has its own server: plain relative servers, no leak shape, route list
+    built; a candidate exists and every candidate declares the method -/
+example : PlainDoc dTwo ∧ PlainDoc dPathSrv ∧ leakShape (inMatchingOrder dTwo.paths) = false ∧
+    (gorillaRoutes dTwo).isSome = true ∧
+    specCands true dTwo (reqRel "GET" "/v2/x/b/7") = [⟨s "/b/{x}", [(s "x", s "7")], true, .doc 1⟩] := by
+  refine ⟨?_, ?_, by decide +kernel, by decide +kernel, by decide +kernel⟩
+  · unfold PlainDoc PlainRel; decide +kernel
+  · unfold PlainDoc PlainRel; decide +kernel
+
+open W in
+/-- the hypotheses of `legacy_refines_spec_sound_partial` hold for GET /a/zz on the server-less document d40: one non-empty
+    binding, no wildcard token, no trailing slashes -/
+example : d40.servers = [] ∧ (∀ p ∈ d40.paths, p.servers = []) ∧
+    legacyMatchOf (docKeys d40) get (s "/a/zz") = some (⟨get, s "/a/{x}"⟩, [s "zz"]) ∧
+    (⟨get, s "/a/{x}"⟩ : Key).toks = [.const (s "GET "), .const (s "/"), .const (s "a"), .const (s "/"), .var (s "x")] ∧
+    legacyFind d40 (req "GET" "/a/zz") = .route (s "/a/{x}") get [(s "x", s "zz")] .none := by decide +kernel
+
+open W in
+/-- the hypotheses of `legacy_order_independent_partial` hold for the family (no two keys collide) and its reversed key list;
+    they fail for /a next to /a/ -/
+example : keyCollision (docKeys dFam) = false ∧ (docKeys dFam).reverse.Perm (docKeys dFam) ∧ keyCollision (docKeys dColl) = true :=
+  ⟨by decide +kernel, List.reverse_perm _, by decide +kernel⟩
+
+open W in
+/-- the hypotheses of `legacy_refines_spec_complete_partial` hold for GET /a/zz on d40: the candidate /a/{x} declares GET, its
+    variable ends its segment, the key has no wildcard token -/
+example : legacyBuildOK d40 = true ∧
+    (⟨s "/a/{x}", [(s "x", s "zz")], true, .none⟩ : Cand) ∈ specCands true d40 (req "GET" "/a/zz") ∧
+    varThenLiteral (sparseS (s "/a/{x}")) = false ∧ varThenLiteral (sparseS (s "/books/{id}.json")) = true := by decide +kernel
 
 end KinModel.Props.C09
